@@ -215,8 +215,15 @@ class Engine:
                 raise PathAbort("assume(False)")
             return
         t = cond.t if isinstance(cond, SymBool) else cond
-        if not self.decide(t):
-            raise PathAbort("assumption false")
+        t = z3.simplify(t)
+        if z3.is_true(t):
+            return
+        if z3.is_false(t):
+            raise PathAbort("assume(False)")
+        # a precondition is added to the path condition directly: its negation is never explored
+        self.add(t)
+        if self.model is None and self._check() != z3.sat:
+            raise PathAbort("assumption unsatisfiable on this path")
 
     def concretize(self, v):
         if isinstance(v, int):
